@@ -188,7 +188,7 @@ Lemma thm_end_request_at_most_once E fuel o st' r :
 Proof.
   intros H.
   assert (HJ0 : J init_state) by (intros q; cbn; lia).
-  pose proof (J_preserved E prog_safe pparam_safe fuel Skip server_session init_state o st' eq_refl session_safe HJ0 H r) as HJ.
+  pose proof (J_preserved prog pparam E prog_safe pparam_safe fuel Skip server_session init_state o st' eq_refl session_safe HJ0 H r) as HJ.
   destruct (memZ r (closed (sid st'))); lia.
 Qed.
 
